@@ -448,8 +448,8 @@ func (m SmallMap) Delete(key Object) (Map, bool) {
 func (m SmallMap) Append(right Map) Map {
 	if right.Len() <= MaxSmallMap { // Maybe same keys, try to keep it a SmallMap
 		res := SmallMap{len: m.len}
-		var ires Map = &res
 		copy(res.smallKV[:m.len], m.smallKV[:m.len])
+		var ires Map = res // a SmallMap value (not a pointer: the type switches in Rest/Range/Elements... only know the value).
 		for _, kv := range right.mapElements() {
 			ires = ires.Set(kv.Key, kv.Value)
 		}
